@@ -74,7 +74,7 @@ func c11line(t *simrt.Tape, tags []string) string {
 		}
 		return fmt.Sprint(t.Choose(50))
 	}
-	switch t.Choose(37) {
+	switch t.Choose(39) {
 	case 35, 36:
 		// a well-formed FETCH response with more items than the client's per-message buffer, none of them a literal
 		k := []int{31, 32, 33, 34, 70}[t.Choose(5)]
@@ -215,6 +215,21 @@ func c11line(t *simrt.Tape, tags []string) string {
 			return "* 1 FETCH (" + []string{"BODYSTRUCTURE ", "BODY "}[t.Choose(2)] + strings.Repeat(level, d) + inner + tail + ")"
 		}
 		return []string{"* 1 FETCH (BODYSTRUCTURE " + open, "* 1 FETCH (BODY " + open + `"TEXT" "PLAIN" NIL NIL NIL "7BIT" 1 1` + strings.Repeat(")", depth), "* THREAD " + open + "1" + strings.Repeat(")", depth), "* 1 FETCH (ENVELOPE " + open, `* LIST ` + open, "* NAMESPACE " + open, `* METADATA "INBOX" ` + open, "* STATUS x " + open, "* 1 FETCH (BODYSTRUCTURE " + strings.Repeat(`("MESSAGE" "RFC822" NIL NIL NIL "7BIT" 1 NIL `, depth/8)}[t.Choose(9)]
+	case 37, 38:
+		// nesting right at the decoder's cap of 1000, after a history of empty lists on the same connection (a depth
+		// counter that is not restored exactly drifts with the history)
+		k := t.Choose(40)
+		empties := []string{"* FLAGS ()", `* LIST () "/" x`, "* 1 FETCH (FLAGS ())", "* SEARCH", `* LIST () NIL ""`}
+		var sb strings.Builder
+		for i := 0; i < k; i++ {
+			sb.WriteString(empties[t.Choose(len(empties))] + "\r\n")
+		}
+		depth := 996 + t.Choose(10) + []int{0, k / 2, k}[t.Choose(3)]
+		open := strings.Repeat("(", depth)
+		if t.Choose(3) == 0 {
+			return sb.String() + "* 1 FETCH (BODY " + open + `"TEXT" "PLAIN" NIL NIL NIL "7BIT" 1 1` + strings.Repeat(")", depth)
+		}
+		return sb.String() + "* THREAD " + open + "1" + strings.Repeat(")", depth)
 	default:
 		return "* OK text"
 	}
@@ -395,6 +410,27 @@ func walkThread(d imapclient.ThreadData, depth int) (zero bool) {
 		}
 	}
 	return zero
+}
+
+// threadDepth is the nesting depth of a delivered thread (iterative on purpose: the harness must survive what it judges).
+func threadDepth(d imapclient.ThreadData) int {
+	type item struct {
+		t *imapclient.ThreadData
+		d int
+	}
+	max := 0
+	stack := []item{{&d, 1}}
+	for len(stack) > 0 {
+		it := stack[len(stack)-1]
+		stack = stack[:len(stack)-1]
+		if it.d > max {
+			max = it.d
+		}
+		for i := range it.t.SubThreads {
+			stack = append(stack, item{&it.t.SubThreads[i], it.d + 1})
+		}
+	}
+	return max
 }
 
 func runC11(r *R) {
@@ -758,6 +794,10 @@ func c11Issue(c *imapclient.Client, kind string) c11pending {
 			for _, th := range d {
 				if walkThread(th, 0) {
 					pr = append(pr, "THREAD result containing message number 0 delivered")
+				}
+				// the property's own bound: nesting beyond the wire decoder's cap (1000 levels) is never delivered
+				if dp := threadDepth(th); dp > 1000 {
+					pr = append(pr, fmt.Sprintf("a thread nested %d levels deep was delivered (the decoder's nesting cap is 1000)", dp))
 				}
 			}
 			return err, pr
